@@ -38,8 +38,9 @@ CHECKS["C03"] = dict(
     text="Bounded-exhaustive by solver: CouldWriteValue/TryToWrite of every configuration against the documented range, "
          "read-back, neighbour-bit and other-byte preservation and failed-write atomicity, for every initial buffer, "
          "length and every value of the full-width argument type.",
-    note="Bcd writes only up to 16 (quick) / 32 (thorough) bits wide (division chains beyond do not bit-blast in time); "
-         "same trusted base as C02.",
+    note="Configurations: a boundary-biased seeded sample (quick) / a third of the full space per run, rotated by the seed (thorough). "
+         "Bcd writes only up to 16 (quick) / 32 (thorough) bits wide (division chains beyond do not bit-blast in time); "
+         "same trusted base as C02.  Structure level: writes through physical, alias and invertible virtual fields of the corpus.",
     design="DESIGN.md section 3 C03",
 )
 
@@ -60,7 +61,8 @@ CHECKS["C04"] = dict(
     text="Every load/store inside the backing buffer and aligned, every llvm.ubsantrap and __assert_fail site, every "
          "nuw/nsw/exact flag and llvm.assume: one unreachability query each, for all buffers of length 0..N (and the null "
          "buffer) and all values, over the leaf kernels of every scalar view and the checked entry points of the corpus structures.",
-    note="Text output/UpdateFromText are outside (iostream/std::string are not encodable); buffer length bounded; "
+    note="Kernel configurations: every sixth of the quick sample (quick) / an eighth of the full space per run, rotated by the seed "
+         "(thorough).  Text output/UpdateFromText are outside (iostream/std::string are not encodable); buffer length bounded; "
          "base pointer aligned as the view type promises.",
     design="DESIGN.md section 3 C04",
 )
